@@ -31,20 +31,22 @@ static void h_offline(void) { G_online--; }
 static void h_rl(void) { if (!G_online) G_fl_bad = 1; G_rl++; }
 static void h_ru(void) { G_rl--; }
 static struct rcu_flavor_struct FL;
-unsigned long in_len, in_kinds;
+unsigned long in_len, in_kinds, in_owner;
 /* the flag bits of a node live in the next word of the node itself: next = successor | flags(kind of THIS node) */
-static unsigned long flags_of(unsigned long kind) { return kind == 0 ? BUCKET_FLAG : (kind == 2 ? (REMOVED_FLAG | REMOVAL_OWNER_FLAG) : 0); }
+/* a removed node: REMOVED alone (a del suspended before it claimed ownership) or REMOVED | REMOVAL_OWNER (a replace suspended right after its
+ * committing compare-and-swap, or a del that lost the CPU before its unlink pass finished) */
+static unsigned long flags_of(unsigned long kind, unsigned long owner) { return kind == 0 ? BUCKET_FLAG : (kind == 2 ? (REMOVED_FLAG | (owner ? REMOVAL_OWNER_FLAG : 0)) : 0); }
 static unsigned long live, removed, buckets;
 static void mk(void)
 {
 	unsigned long k;
-	VIN(unsigned long, in_len); VIN(unsigned long, in_kinds);
+	VIN(unsigned long, in_len); VIN(unsigned long, in_kinds); VIN(unsigned long, in_owner);
 	G_len = in_len % NN + 1; live = removed = buckets = 0;
 	for (k = 0; k < NN; k++) {
 		struct cds_lfht_node *succ = (k + 1 < G_len) ? &N[k + 1] : (struct cds_lfht_node *) END_VALUE;
 		G_kind[k] = (k == 0) ? 0 : ((in_kinds >> (2 * k)) & 3) % 3;
 		N[k].reverse_hash = k;				/* increasing along the chain */
-		N[k].next = (struct cds_lfht_node *) ((unsigned long) succ | flags_of(G_kind[k]));
+		N[k].next = (struct cds_lfht_node *) ((unsigned long) succ | flags_of(G_kind[k], (in_owner >> k) & 1));
 		if (k < G_len) { if (G_kind[k] == 0) buckets++; else if (G_kind[k] == 1) live++; else removed++; }
 	}
 	FL.read_ongoing = h_ongoing; FL.thread_online = h_online; FL.thread_offline = h_offline; FL.read_lock = h_rl; FL.read_unlock = h_ru; HT.flavor = &FL; G_rl = G_online = G_fl_bad = 0;
@@ -89,4 +91,32 @@ void h_small_first_next(void)
 	}
 	VERIF_ASSERT(it.node == 0 && seen == live, "first/next (small chains): a full traversal visits every live user node exactly once");
 	VERIF_COVER(seen == 3); VERIF_COVER(seen == 1 && removed == 2);
+}
+
+/* ---- C17 / C05: _cds_lfht_add on every small chain that contains SUSPENDED removals (either flag combination) -------------
+ * the add runs solo: it must finish (every loop fully unwound, unwinding assertions on), having HELPED - unlinked - each logically
+ * removed node in front of its insertion point instead of waiting for the suspended owner */
+struct cds_lfht_node X; unsigned long in_xr;
+void h_small_add(void)
+{
+	unsigned long xr, k, seen_x = 0, seen_live = 0, last = 0, removed_before_x = 0, steps = 0; struct cds_lfht_node *p;
+	mk(); VIN(unsigned long, in_xr); xr = in_xr % (NN + 1);
+	X.reverse_hash = xr; X.next = (struct cds_lfht_node *) 0xbad0UL;
+	_cds_lfht_add(&HT, 0, NULL, NULL, 1, &X, NULL, 0);
+	for (p = &N[0], k = 0; k < NN + 2 && !is_end(p); k++) {
+		struct cds_lfht_node *c = clear_flag(p), *nx = c->next;
+		steps++;
+		VERIF_ASSERT(c->reverse_hash >= last, "add (small chains with suspended removals): the chain stays sorted by reverse hash");
+		last = c->reverse_hash;
+		if (c == &X) seen_x++;
+		else if (is_removed(nx)) { if (!seen_x) removed_before_x++; }
+		else if (!is_bucket(nx)) seen_live++;
+		p = nx;
+	}
+	VERIF_ASSERT(is_end(p), "add (small chains): the chain still ends in END");
+	VERIF_ASSERT(seen_x == 1, "add (small chains with suspended removals): the solo add completes and the new node is reachable exactly once");
+	VERIF_ASSERT(seen_live == live, "add (small chains with suspended removals): every live node is still reachable");
+	VERIF_ASSERT(removed_before_x == 0, "add helps: every logically removed node in front of the insertion point has been unlinked (with or without a removal owner) - the add does not wait for the suspended remover");
+	VERIF_ASSERT(is_end(X.next) || clear_flag(X.next)->reverse_hash > xr, "plain add: linked after every node of equal reverse hash");
+	VERIF_COVER(removed == 2 && xr == NN); VERIF_COVER(removed == 1 && (in_owner & 14) == 0 && xr >= 2); VERIF_COVER(removed == 0 && xr == 0);
 }
